@@ -57,6 +57,9 @@ def run_cmd(root, cwd, args, log):
         k, v = args[0][4:].split('=', 1)
         env[k] = v
         args = args[1:]
+    args = [a for a in args if not a.startswith('CWDREL:')]
+    if args and args[0].startswith('CWD:'):             # the command is run while standing somewhere else
+        cwd, args = args[0][4:], args[1:]
     p = B.tally(cwd, *args, env_extra=env)
     effects = []
     if os.path.exists(log):
@@ -174,6 +177,13 @@ def commands(rnd, b, root, cfg, base, shape):
         ('init', ['init', os.path.join(root, 'elsewhere-%d' % rnd.randrange(1000))]), ('init', ['init', os.path.join('..', 'other-budget-%d' % rnd.randrange(10 ** 6))]),
         ('init', ['ENV:TALLY_CONFIG=' + cfg, 'init', os.path.join(root, 'elsewhere-env-%d' % rnd.randrange(1000))]),
     ]
+    # a relative --output while standing in another folder: the report goes THERE, nothing appears in the budget
+    work = os.path.join(root, 'somewhere-else')
+    os.makedirs(work, exist_ok=True)
+    rel_out = rnd.choice(['jan.html', 'reports-jan.html', os.path.join('.', 'x.html')])
+    pool += [('up', ['CWD:' + work, 'CWDREL:somewhere-else', 'up', cfg, '--output', rel_out, '-q']),
+             ('up', ['CWD:' + work, 'CWDREL:somewhere-else', 'up', cfg, '-o', rel_out, '--no-embedded-html', '-q']),
+             ('up', ['ENV:TALLY_CONFIG=' + cfg, 'CWD:' + work, 'CWDREL:somewhere-else', 'up', '--output', rel_out, '-q'])]
     n = rnd.randint(3, 8)
     seq = [rnd.choice(pool) for _ in range(n)]
     if shape.get('focus'):
@@ -185,7 +195,11 @@ def commands(rnd, b, root, cfg, base, shape):
 def allowed_output(rel, base_rel, args):
     out_dir = os.path.normpath(os.path.join(base_rel, 'output'))
     rel = os.path.normpath(rel)
-    return rel == out_dir or rel.startswith(out_dir + os.sep)
+    if rel == out_dir or rel.startswith(out_dir + os.sep):
+        return True
+    # an explicit relative --output names a place under the directory the command is run from (CWD:<root-relative dir>): that folder is the output location
+    cw = [a[7:] for a in args if a.startswith('CWDREL:')]
+    return bool(cw) and (rel == cw[0] or rel.startswith(cw[0] + os.sep))
 
 
 def judge_readonly(rec, kind, args, before, after, effects, root, base, case):
@@ -248,8 +262,8 @@ def judge_init(rec, args, before, after, effects, root, base, case, had_rules_cs
             return
 
 
-def judge_migrate(rec, args, before, after, effects, root, base, case, was_csv_budget, had_rules_csv):
-    cfg_rel = os.path.relpath(os.path.join(base, 'config'), root)
+def judge_migrate(rec, args, before, after, effects, root, base, case, was_csv_budget, had_rules_csv, cfg_rel=None):
+    cfg_rel = cfg_rel or os.path.relpath(os.path.join(base, 'config'), root)
     csv_rel = os.path.join(cfg_rel, 'merchant_categories.csv')
     rec.count('tree_snapshot_checks')
     for p, h in before.items():
@@ -334,6 +348,58 @@ def judge(rec, rnd, tmp, k, log, focus=False):
     shutil.rmtree(root, ignore_errors=True)
 
 
+def judge_odd_config_name(rec, rnd, tmp, k, log):
+    """A budget whose config folder is not called `config` (tally up <dir>, or TALLY_CONFIG): the legacy CSV is in use, and next to it lies a
+    merchants.rules the user wrote.  `up --migrate` may refuse or migrate elsewhere; it never replaces that file, and read-only commands write nothing."""
+    root = os.path.join(tmp, 'odd%d' % k)
+    name = rnd.choice(['cfg-2025', 'settings', 'config.2025', 'Config', 'my config'])
+    cfg = os.path.join(root, 'budget', name)
+    base = os.path.dirname(cfg)
+    os.makedirs(cfg)
+    os.makedirs(os.path.join(base, 'data'))
+    with open(os.path.join(cfg, 'settings.yaml'), 'w') as f:
+        f.write('year: 2025\ndata_sources:\n  - name: Card\n    file: data/card.csv\n    format: "{date:%Y-%m-%d},{description},{amount}"\n')
+    with open(os.path.join(cfg, 'merchant_categories.csv'), 'w') as f:
+        f.write('Pattern,Merchant,Category,Subcategory\nNETFLIX,Netflix,Subscriptions,Streaming\nCOSTCO,Costco,Food,Grocery\n')
+    with open(os.path.join(base, 'data', 'card.csv'), 'w') as f:
+        f.write('Date,Description,Amount\n2025-01-03,NETFLIX.COM,15.99\n2025-01-09,COSTCO WHSE 12,140.20\n2025-02-01,CORNER CAFE,4.50\n')
+    user_rules = rnd.random() < .7
+    if user_rules:
+        with open(os.path.join(cfg, 'merchants.rules'), 'w') as f:
+            f.write(rnd.choice(['# my own rules, work in progress\n[Mine]\nmatch: contains("MINE")\ncategory: Mine\n', '# note to self\n', 'is_large = amount > 500\n']))
+    shape = {'layout': 'odd-config-name', 'name': name, 'user_rules': user_rules, 'rules': 'csv'}
+    cfg_rel = os.path.relpath(cfg, root)
+    pool = [('migrate', ['up', cfg, '--migrate', '-q']), ('migrate', ['CWD:' + base, 'up', name, '--migrate', '--format', 'summary']),
+            ('migrate', ['ENV:TALLY_CONFIG=' + cfg, 'up', '--migrate', '-q']),
+            ('up', ['up', cfg, '-q']), ('explain', ['explain', cfg]), ('discover', ['discover', cfg, '--format', 'json'])]
+    prev = None
+    for kind, args in [rnd.choice(pool[:3])] + [rnd.choice(pool) for _ in range(2)]:
+        before = snapshot(root)
+        settings_old = read(root, os.path.join(cfg_rel, 'settings.yaml'))
+        csv_path = os.path.join(cfg, 'merchant_categories.csv')
+        had_csv = os.path.exists(csv_path)
+        p, effects = run_cmd(root, root, args, log)
+        after = snapshot(root)
+        rec.case()
+        rec.count('commands_run')
+        rec.count('odd_config_name_commands')
+        rec.count('effects_observed', len(effects))
+        case = {'kind': 'odd-config-name', 'shape': shape, 'command': [a.replace(root, '<root>') for a in args], 'previous': prev, 'exit': p.returncode}
+        if kind == 'migrate':
+            rec.count('migrate_runs')
+            try:
+                import yaml
+                was_csv_budget = had_csv and not (yaml.safe_load(settings_old) or {}).get('merchants_file')
+            except Exception:
+                was_csv_budget = False
+            judge_migrate(rec, args, before, after, effects, root, base, case, was_csv_budget, had_csv, cfg_rel=cfg_rel)
+            settings_append_only(rec, root, os.path.join(cfg_rel, 'settings.yaml'), settings_old, case, 'migrate')
+        else:
+            judge_readonly(rec, kind, args, before, after, effects, root, base, case)
+        prev = kind
+    shutil.rmtree(root, ignore_errors=True)
+
+
 def run(rec, shard, nshards, t):
     core.import_tally()
     rnd = core.rng_for('C20', shard)
@@ -344,6 +410,8 @@ def run(rec, shard, nshards, t):
             judge(rec, rnd, tmp, k, log)
         for k in range(max(1, (24 if t == 'quick' else 600) // nshards)):
             judge(rec, rnd, tmp, 100000 + k, log, focus=True)
+        for k in range(max(1, (16 if t == 'quick' else 300) // nshards)):
+            judge_odd_config_name(rec, rnd, tmp, k, log)
         if shard == 0:
             rec.sample({'example_sequence': ['up', 'discover --format json', 'init', 'up --migrate -q'], 'monitors': ['sha256 tree snapshot', 'audit-hook effect log']})
     finally:
@@ -360,6 +428,7 @@ def replay(rec, case):
     try:
         for k in range(30):
             judge(rec, rnd, tmp, k, log, focus=k % 3 == 0)
+            judge_odd_config_name(rec, rnd, tmp, k, log)
     finally:
         shutil.rmtree(tmp, ignore_errors=True)
         if os.path.exists(log):
